@@ -178,9 +178,9 @@ def load_known_findings():
       fixed: property=Cxx <commit> <what failed>                        documentation, suppresses nothing
     """
     out = []
-    d = os.path.join(VERIF, "known_findings")
-    for fn in sorted(os.listdir(d)) if os.path.isdir(d) else []:
-        for line in open(os.path.join(d, fn)):
+    kdir = os.path.join(VERIF, "known_findings")
+    for fn in sorted(os.listdir(kdir)) if os.path.isdir(kdir) else []:
+        for line in open(os.path.join(kdir, fn)):
             line = line.strip()
             m = re.match(r"known:\s+property=(C\d+)\s+(\{.*\})$", line)
             if m:
